@@ -24,9 +24,9 @@ LEVEL_TEXT = ("Theorems for all trees (any depth, any member count). ONE merge, 
               "when missing, class/module: the completed recursive merge, kind mismatch or alias on either side: untouched, stub-only: appended with "
               "runtime=False, alias or CHAIN of aliases of any length to a loaded object: the same merge into the final target, the chain kept); "
               "unloaded aliases are never touched; merge_stubs and the implicit merge of set_member give the same result in both orders; two regular "
-              "modules are rejected. The loader's SECOND merge of a package's __init__ stubs is characterised exactly (objects, not values: every "
-              "stub-only member is merged into itself, nothing else changes) and proved idempotent up to the bookkeeping dicts modulo the known "
-              "finding C19-F5 (decidable gap predicate, refutation proved and replayed). Model tied to the tree under test by differential runs on "
+              "modules are rejected. The loader's SECOND merge of a package's __init__ stubs (objects, not values: stub-only members moved by the "
+              "first merge are skipped since the repair of C19-F5) is proved to change nothing, for all trees: the double merge is the single "
+              "merge, also with a separate stubs package (then followed by one ordinary merge of the stubs submodules). Model tied to the tree under test by differential runs on "
               "generated file pairs in fourteen placements (sibling, package __init__, nested subpackage __init__ at two depths, -stubs package "
               "with nested subpackage, producer API) and both discovery orders, with the per-scope pending-overloads dicts of the result compared, "
               "and by a sequential model of one package (files arriving in listing order, aliases resolved at merge time, chains, write-back) "
@@ -34,12 +34,12 @@ LEVEL_TEXT = ("Theorems for all trees (any depth, any member count). ONE merge, 
               "modulo known finding C19-F6 = a third module's pair in between, refutation proved and replayed).")
 LEVEL_NOTE = ("Trusted: Coq kernel, extraction, the live-object -> tree abstraction and generators in this module. Values not objects: an alias "
               "carries the value of its loaded final target (one alias per target within a merge); object identity is modelled only where the code's "
-              "behaviour depends on it (second merge: settle; sequential model: which aliases end up bound to dropped stub objects). Listing orders in "
+              "behaviour depends on it (second merge: which members were moved; sequential model: which aliases end up bound to dropped stub objects). Listing orders in "
               "which a merge goes THROUGH an alias already bound to a dropped object are outside the sequential model and not generated (counted). "
               "Expressions are their str() text. The -stubs package case of the double merge is proved for submodule names not bound in the stubs "
               "__init__ (a shadowing submodule is checked by (C) only). Checked, not proved: the sequential model against the code (its order theorem is about the model), parent/path/collection consistency, "
               "alias back-reference dicts, stubs importing loaded objects, the wildcard facade against CPython. Known findings: F4 (in-package stubs "
-              "merged before wildcard expansion), F5 (double merge hands pending groups of stub-only classes to their own methods), F6 (a third "
+              "merged before wildcard expansion), F6 (a third "
               "module's pair between the two files of a pair: result depends on which came first, aliases left bound to dropped stub objects); each "
               "failure is attributed to them only when the model of the unchanged code reproduces the very same tree. The finder is exercised by "
               "placements only, wildcard expansion is not modelled.")
@@ -329,7 +329,7 @@ CORPUS = [
     ("A = 1\n", ""),
     # implementation before the overloads in the stub (buffer stays pending and the member exists)
     ("def g(x): ...\n", "from typing import overload\ndef g(x: float) -> float: ...\n@overload\ndef g(x: int) -> int: ...\n"),
-    # finding F5: the same inside a stub-only class (the loader's second merge merges the moved class into itself)
+    # repaired finding F5: the same inside a stub-only class (the loader's second merge merged the moved class into itself)
     F5_WITNESS,
     # ... when the method already has an overload list (objects, not values: the pending group wins)
     ("A = 1\n", "from typing import overload\nclass S:\n    @overload\n    def g(self, x: int) -> int: ...\n    def g(self, x): ...\n"
@@ -670,43 +670,6 @@ def py_gaps(s, o, prefix=()):
     return f1, f2
 
 
-def _pending_self(t, prefix, out):
-    """Inside a MOVED (stub-only) class/module: functions named by a pending overload group of their own scope."""
-    if t[0] != "obj" or t[KIND] not in ("class", "module"):
-        return
-    mem = dict((n, m) for n, m in t[MEM])
-    if t[OV][0] == "dict":
-        for fn, ovs in t[OV][1]:
-            m = mem.get(fn)
-            if ovs and m is not None and m[0] == "obj" and m[KIND] == "function":
-                out.add(prefix + (fn,))
-    for n, m in t[MEM]:
-        _pending_self(m, prefix + (n,), out)
-
-
-def f5_paths(s, o, prefix=(), out=None):
-    """Python mirror of the Coq gap predicate of C19-F5 (negation of [quiet_moved]): paths of functions whose overloads the
-    loader's second merge rewrites because their stub-only class/module is merged into itself."""
-    out = set() if out is None else out
-    if s[0] != "obj" or o[0] != "obj":
-        return out
-    omap = {}
-    for n, t in o[MEM]:
-        omap.setdefault(n, t)
-    for n, sm in s[MEM]:
-        om = omap.get(n)
-        if om is None:
-            _pending_self(sm, prefix + (n,), out)
-        elif om[0] == "obj" and sm[0] == "obj" and om[KIND] == sm[KIND] and om[KIND] in ("module", "class"):
-            f5_paths(sm, om, prefix + (n,), out)
-    return out
-
-
-def only_f5(diffs, gap):
-    return bool(diffs) and all(field == "overloads" and tuple(path) in gap for path, field in diffs)
-
-
-DOUBLE_MERGE = ("toplevel", "stubs-package", "stubs-package nested")
 FIELDS = {KIND: "kind", DOC: "docstring", PARAMS: "parameters", RET: "returns", OV: "overloads", ANN: "annotation", RT: "runtime", IMP: "imports"}
 
 
@@ -843,8 +806,6 @@ def _run_case(ctx, d, case, py, pyi, stream, use_model, idx):
 
     # ---- direct evaluation of the property on the implementation
     expected = erase(spec_scope(t_pyi, t_py))
-    gap5 = f5_paths(t_pyi, t_py)
-    ctx.observe("stub_only_container_with_pending_group_for_own_function(F5)", len(gap5) if len(gap5) < 3 else "3+")
     placements_m = {}
 
     def judge_tree(k, tree):
@@ -855,8 +816,7 @@ def _run_case(ctx, d, case, py, pyi, stream, use_model, idx):
         diffs = tree_diff(tree, expected)
         if diffs:
             ctx.property_failure({**case, "placement": k}, {"differences_from_property": [list(map(str, x)) for x in diffs[:10]],
-                                                            "merged": tree, "expected": expected},
-                                 finding="C19-F5" if k in DOUBLE_MERGE and only_f5(diffs, gap5) else None)
+                                                            "merged": tree, "expected": expected})
 
     for k, v in impl.items():
         if v[0] == "err":
@@ -894,9 +854,7 @@ def _run_case(ctx, d, case, py, pyi, stream, use_model, idx):
     trees = list(placements_m.items())
     for (k1_, v1), (k2_, v2) in zip(trees, trees[1:]):
         if v1 != v2:
-            dd = tree_diff(v1, v2)
-            ctx.property_failure({**case, "placement": f"{k1_} vs {k2_}"}, {"order_or_placement_dependent": [list(map(str, x)) for x in dd[:10]]},
-                                 finding="C19-F5" if (k1_ in DOUBLE_MERGE) != (k2_ in DOUBLE_MERGE) and only_f5(dd, gap5) else None)
+            ctx.property_failure({**case, "placement": f"{k1_} vs {k2_}"}, {"order_or_placement_dependent": [list(map(str, x)) for x in tree_diff(v1, v2)[:10]]})
     for fam in ("inpkg", "nested", "deep", "leaf"):
         if f"{fam}(py first)" not in impl:
             continue
@@ -1735,7 +1693,6 @@ def explore(ctx):
             batch = []
     if batch:
         compare_with_model(ctx, batch)
-    ctx.witness("C19-F5", ctx.known_hits.get("C19-F5", 0) > 0)      # F5_WITNESS is a corpus pair (always run)
     before = ctx.known_hits.get("C19-F6", 0)
     run_interleaved_case(ctx, 900000, *F6_WITNESS, order=["m.pyi", "user.py", "user.pyi", "via.py", "via.pyi", "m.py"])
     ctx.witness("C19-F6", ctx.known_hits.get("C19-F6", 0) > before)
